@@ -42,7 +42,11 @@ def go_test_multi(ctx, mod, pkgs, timeout=900):
     env = dict(os.environ)
     env.update(GOPROXY="off", GOFLAGS="", VERIF_OUT=ctx.out, VERIF_SEED=str(ctx.seed), VERIF_TIER=ctx.tier)
     env.pop("GOTOOLCHAIN", None)
-    cmd = ["go", "test", "-tags", "verif", "-vet=off", "-overlay", ov, "-run", "TestVerif_C03$", "-count=1",
+    gobin = "go"
+    if os.path.exists("/opt/veriftools/go1.26.8/bin/go") and not os.environ.get("VERIF_GO_DEFAULT"):
+        gobin = "/opt/veriftools/go1.26.8/bin/go"     # same toolchain as hv/core.py's go_test (see the note there)
+        env["GOTOOLCHAIN"] = "local"
+    cmd = [gobin, "test", "-tags", "verif", "-vet=off", "-overlay", ov, "-run", "TestVerif_C03$", "-count=1",
            "-timeout", "%ds" % timeout, "-v"] + sorted(pkgs)
     t = time.time()
     try:
